@@ -32,9 +32,26 @@ def wsgiReq? : Sexp → Option Wsgi.Req
   | .list [v, c] => do some ⟨(← nat? v), (← optBytes? c)⟩
   | _ => none
 
+def wsgiStatus? (s : Sexp) : Option Bytes :=
+  match bytes? s with
+  | some b => some b
+  | none => (nat? s).map Wsgi.statusOfCode
+
 def wsgiApp? : Sexp → Option Wsgi.App
   | .list [st, hs, cl, ps, rv] => do
-    some ⟨(← bytes? st), (← pairs? hs), (← optNat? cl), (← bytesList? ps), (← bytes? rv)⟩
+    some ⟨(← wsgiStatus? st), (← pairs? hs), (← optNat? cl), (← bytesList? ps), (← bytes? rv)⟩
+  | _ => none
+
+def c18Conn : Sexp → Option Sexp
+  | .list [eof, .list rs, .list as] => do
+    let eof ← bool? eof
+    let rs ← rs.mapM wsgiReq?
+    let as ← as.mapM wsgiApp?
+    if rs.length != as.length then none
+    let o := Wsgi.serve (rs.zip as)
+    -- a connection whose client went away is dropped by the server; what had been queued by then depends on timing
+    if eof then some (.list [sym "eof", ofBool true])
+    else some (.list [ofBytes o.raw, ofBool o.closed, ofNat o.calls])
   | _ => none
 
 def c18 : Sexp → Option Sexp
@@ -69,19 +86,29 @@ def cliReq? : Sexp → Option Cli.Req
 
 def ofPairs (ps : List (Bytes × Bytes)) : Sexp := .list (ps.map fun p => .list [ofBytes p.1, ofBytes p.2])
 
+def optPairs? : Sexp → Option (Option (List (Bytes × Bytes)))
+  | .atom "-" => some none
+  | s => (pairs? s).map some
+
+def cliMore? : Sexp → Option (Bytes × Option Bytes × Bytes × Option (List (Bytes × Bytes)))
+  | .list [m, p, b, q] => do some ((← bytes? m), (← optBytes? p), (← bytes? b), (← optPairs? q))
+  | _ => none
+
 def ofOptNat : Option Nat → Sexp := ofOpt ofNat
 
 def outcomeName : Cli.Outcome → String
   | .running => "running" | .stuck => "stuck"
 
 def c19 : Sexp → Option Sexp
-  | .list [.atom "c19", sec, port, .list rq, .list sv] => do
+  | .list [.atom "c19", sec, port, .list rq, .list sv, .list more] => do
     let sec ← bool? sec
     let port ← nat? port
     let rq ← rq.mapM cliReq?
     let sv ← sv.mapM cliServer?
-    let fuel := 2 * (rq.length + (sv.map (fun s => s.script.length)).foldl (· + ·) 0) + 10
-    let s := Cli.run sv (List.replicate fuel true) (Cli.init sec port sv rq)
+    let more ← more.mapM cliMore?
+    let fuel := 2 * (rq.length + more.length + (sv.map (fun s => s.script.length)).foldl (· + ·) 0) + 10
+    let s1 := Cli.run sv (List.replicate fuel true) (Cli.init sec port sv rq)
+    let s := if more.isEmpty then s1 else Cli.run sv (List.replicate fuel true) (Cli.reopenAndQueue sv s1 rq.length more)
     let ents := s.entries.map fun e =>
       Sexp.list [ofOptNat e.status, ofBytes e.body, ofBool e.errored, ofOptNat e.tag, ofBytes e.method, ofBytes e.path, ofBytes e.rbody, ofPairs e.rqargs,
                  .list (e.redirects.map fun h => .list [ofNat h.status, ofBytes h.path, ofOptNat h.tag])]
@@ -97,7 +124,7 @@ def c19 : Sexp → Option Sexp
 def exnName : Req.Exn → String
   | .unmodelled => "unmodelled" | .incomplete => "incomplete" | .badRequestLine => "HTTPException"
   | .unknownProtocol => "HTTPException" | .badMethod => "HTTPException" | .valueError => "ValueError"
-  | .tooManyHeaders => "HTTPException" | .noLength => "HTTPException"
+  | .tooManyHeaders => "HTTPException" | .noLength => "HTTPException" | .lineTooLong => "HTTPException"
 
 
 def c14Spec? : Sexp → Option Req.Spec
@@ -124,9 +151,14 @@ def c14 : Sexp → Option Sexp
   | .list [.atom "parse_qsl", b] => do some (ofPairs (Req.parseQsl (← bytes? b)))
   | _ => none
 
+def c18m : Sexp → Option Sexp
+  | .list [.atom "c18m", .list cs] => do some (.list (← cs.mapM c18Conn))
+  | _ => none
+
 def handle (r : Sexp) : Sexp :=
   match r with
   | .list (.atom "c18" :: _) => (c18 r).getD (sym "bad-request")
+  | .list (.atom "c18m" :: _) => (c18m r).getD (sym "bad-request")
   | .list (.atom "c19" :: _) => (c19 r).getD (sym "bad-request")
   | .list (.atom _ :: _) => (c14 r).getD (sym "bad-request")
   | _ => sym "bad-request"
